@@ -314,6 +314,7 @@ def run_case(c):
             vio.append(V("C11/protect-raises/" + exc_key(e), "role reversal: %r" % e))
     # ---- O4 tampering, on the request and on the response
     reached_decrypt = False
+    rejected_first_done = False
     for kind, n in c["tamper"]:
         for which in ("request", "response"):
             data = req_bytes if which == "request" else resp_bytes
@@ -437,6 +438,17 @@ def run_case(c):
                 continue
             res = attempt_unprotect(rcpt, wire, rid, is_request=(which == "request"), direct_fallback=True)
             labels.add("tamper-" + kind)
+            if which == "request" and kind in ("ct-bit", "ctx-secret", "ctx-salt") and not rejected_first_done:
+                # a rejected copy that arrives *before* the genuine message must not cost the genuine one its acceptance
+                rejected_first_done = True
+                _, fresh_server = pair()
+                try:
+                    r1 = attempt_unprotect(fresh_server, clone_wire(tampered), None, is_request=True)
+                    r2 = attempt_unprotect(fresh_server, clone_wire(req_bytes), None, is_request=True)
+                    if r1[0] != "message" and r2[0] != "message":
+                        vio.append(V("C11/authentic-request-not-accepted/after-rejected-copy", "a manipulated copy (%s) was rejected first; then the genuine request: %r" % (kind, r2[1:])))
+                except Exception as e:
+                    vio.append(V("C11/tampering-raises-non-protection-error/%s" % exc_key(e), repr(e)))
             if res[0] == "message":
                 vio.append(V("C11/tampered-message-accepted/%s/%s" % (kind, which), "option %s -> %s, payload changed: %s; yielded %s" % (optraw.hex(), new_opt.hex(), new_payload != payload, res[1])))
             elif res[0] == "other":
